@@ -127,9 +127,16 @@ class Model:
         if ".create_" in name:
             parent, nm = a[0], a[1]
             kind = {"library": "L", "definition": "D", "port": "P", "cable": "C", "child": "X"}[name.split("create_")[1].split(".")[0]]
-            if nm is None:
+            data = {}
+            if nm is not None:
+                data[".NAME"] = nm
+            if name.endswith(".props") and a[2] is not None:
+                if self.illegal("EDIF.identifier", a[2]):
+                    return "refuse"
+                data["EDIF.identifier"] = a[2]
+            if not data:
                 return "accept"
-            return "refuse" if self.clash(kind, parent, {".NAME": nm}) else "accept"
+            return "refuse" if self.clash(kind, parent, data) else "accept"
         if ".add_" in name:
             parent, el = a[0], a[1]
             kind = w.kind[w.idx(el)]
